@@ -100,14 +100,14 @@ class LayoutMonitor:
         if bytes(out) == exp:
             # also run the independent parser over it (model self-consistency + field view)
             try:
-                ents = L.parse_body(bytes(offset) + bytes(out), offset, key, True)
+                ents = L.parse_body(bytes(out), 0, key, True, base=offset)
                 assert len(ents) == len(comps)
             except L.LayoutError as e:
                 self._viol("independent_parser_rejects_output:" + e.rule, {"offset": offset})
             return
         # classify the difference through the parser
         try:
-            ents = L.parse_body(bytes(offset) + bytes(out), offset, key, True)
+            ents = L.parse_body(bytes(out), 0, key, True, base=offset)
         except L.LayoutError as e:
             self._viol(e.rule, {"offset": offset, "len": len(out), "expected_len": len(exp), "err": str(e)})
             return
